@@ -20,6 +20,10 @@ CHECKS = {
              text="TLC exhausts all interleavings of 3 exchanges over 2 connections with cancellation, idle-timer expiry, server abort and transport close at every point (one-outstanding, clean-idle, exclusive use, own-reply); the real ReuseConnTransport is driven by 12 concurrent callers whose deadlines fall around the reply time against a seeded server that delays, splits, half-sends, drops, aborts (FIN/RST) and closes connections while idle, with 25 ms idle and 150 ms response time-outs; TLC validates the hook/server/caller trace and evaluates the C06 invariants at every event.",
              note="Real-code schedules are sampled; rc.* hooks are emitted under the connection's lock or by the single worker owning it; the server answers at most once per query.",
              ref="DESIGN.md section 4 C06"),
+ "C16": dict(technique="TLA+ specification of the UDP->TC->TCP fallback (TLC exhaustive over all leg outcomes) + TLC trace validation of scripted two-protocol server events and caller outcomes from the real udp:// upstream",
+             text="The fallback function is specified and exhausted over every combination of UDP outcome (reply, TC reply, loss) and TCP outcome (reply, abort, silence); the real upstream built by NewUpstream(\"udp://...\") is driven by concurrent callers against a server owning both protocols of one port whose per-question script fixes both legs; TLC checks on the recorded trace that no truncated UDP message is ever returned, that TCP is attempted only after a TC reply, and that each caller's outcome class equals the specification's Result(udp, tcp).",
+             note="Outcome classes are timing-free by construction of the scenario (ample caller deadline).",
+             ref="DESIGN.md section 4 C16"),
 }
 
 PENDING_REASON = "check under construction in this round (see DESIGN.md section 4); not claimed until its machinery is committed and passes on the unchanged tree"
